@@ -242,3 +242,42 @@ N("m-n-exclude-helper", SG, """        if self.name == marker_name:
             return AnyMarker()
 
         return self""", """        return AnyMarker() if marker_name == self.name else self""", props=["C12"])
+
+# ---------------------------------------------------------------- tags: C08 / C09 / C16 / C18
+TG = "tags/tags.py"
+PL = "tags/platform.py"
+M("t-abi-rank", TG, 'return (int(major), int(minor or 0), 0 if abi_impl == "none" else 2)', 'return (int(major), int(minor or 0), 2 if abi_impl == "none" else 0)', fire=["C08"])
+M("t-abi3-rank", TG, "return (int(major), int(minor or 0), 1)  # 1 for abi3", "return (int(major), int(minor or 0), 3)  # 1 for abi3", fire=["C08"])
+M("t-abi3-gil", TG, '''        allow_abi3 = impl == "cp" and (
+            self.implementation is None or not self.implementation.gil_disabled
+        )''', '''        allow_abi3 = impl == "cp"''', fire=["C08"])
+M("t-minor-or-1", TG, 'parse_version_specifier(f">={major}.{minor or 0}")', 'parse_version_specifier(f">={major}.{minor or 1}")', fire=["C08"])
+M("t-impl-py", TG, """            self.implementation.short,
+            "py",
+        ]:""", """            self.implementation.short,
+        ]:""", fire=["C08"])
+M("t-free-threaded", TG, 'and abi_impl.endswith("t") is not free_threaded', 'and abi_impl.endswith("t") is free_threaded', fire=["C08"])
+M("t-pyxy-regress", TG, 'if major and minor and impl == "py":', 'if major and minor and impl == "px":', fire=["C08"])
+M("t-prefix-regress", TG, 'if abi_impl.rstrip("dmut") != python_tag.lower():', 'if not abi_impl.startswith(python_tag.lower()):', fire=["C08"])
+M("t-short-pp", TG, '''        elif self.name == "pypy":
+            return "pp"''', '''        elif self.name == "pypy":
+            return "pt"''', fire=["C08"])
+M("t-compat-min", TG, """        python_compat = max(
+            filter(""", """        python_compat = min(
+            filter(""", fire=["C08"])
+M("t-wheel-range-ignored", TG, """        if (wheel_range & self.requires_python).is_empty():
+            return None
+        return (int(major)""", """        if (wheel_range & self.requires_python).is_empty():
+            pass
+        return (int(major)""", fire=["C08"])
+N("t-n-impl-set", TG, """        if self.implementation is not None and impl not in [
+            self.implementation.short,
+            "py",
+        ]:""", """        if self.implementation is not None and impl not in (
+            "py",
+            self.implementation.short,
+        ):""", props=["C08"])
+N("t-n-abi3-split", TG, """        allow_abi3 = impl == "cp" and (
+            self.implementation is None or not self.implementation.gil_disabled
+        )""", """        gil_off = self.implementation is not None and self.implementation.gil_disabled
+        allow_abi3 = impl == "cp" and not gil_off""", props=["C08"])
